@@ -126,6 +126,9 @@ func runEngineFaultCase(c engineFaultCase) *Violation {
 				if !waitLive(base) {
 					return violation(prop, "build/index-leak", "%s: %d native indexes created on the way are still alive", desc, fakeLive()-base)
 				}
+				if m := faissMisuse(); m != "" {
+					return violation(prop, "build/index-released-twice", "%s: %s", desc, m)
+				}
 			}
 		}
 		return nil
@@ -250,6 +253,10 @@ func runEngineFaultCase(c engineFaultCase) *Violation {
 				}
 				if !waitLive(base) {
 					return violation(prop, "merge/index-leak", "%s: %d native indexes created on the way are still alive", desc, fakeLive()-base)
+				}
+				// "released" means released once: no index is closed twice or used after its release
+				if m := faissMisuse(); m != "" {
+					return violation(prop, "merge/index-released-twice", "%s: %s", desc, m)
 				}
 			}
 		}
